@@ -688,6 +688,14 @@ impl Model {
             if npend != 1 {
                 v.push(Viol { prop: "C06", what: format!("{npend} pending batches after {kind}") });
             }
+            // "its batch period": the due time of a pending batch is fixed when it is opened (instantiation, or the
+            // submission of its predecessor); nothing that happens while it is pending moves it
+            if pre.state_ok && post.state_ok && pre.pending.status == "pending" && post.pending.id == pre.pending.id && post.pending.next_time_s != pre.pending.next_time_s {
+                v.push(Viol { prop: "C06", what: format!("{kind} moved the due time of pending batch {} from {} to {} (now {})", pre.pending.id, pre.pending.next_time_s, post.pending.next_time_s, sc.w.now_s()) });
+            }
+            if post.pending.id == pre.pending.id && !is_submit {
+                self.seen("C06", format!("due_kept|{kind}|{}|{}", (sc.w.now_s() as i128 - pre.pending.next_time_s as i128).clamp(-1, 1), pre.stopped));
+            }
             let maxid = post.batches.iter().map(|b| b.id).max().unwrap_or(0);
             if post.pending.status != "pending" || post.pending.id != maxid {
                 v.push(Viol { prop: "C06", what: format!("pending batch is {} ({}) but highest id is {maxid}", post.pending.id, post.pending.status) });
